@@ -20,7 +20,9 @@ Definition is_some {A} (o : option A) : bool := match o with Some _ => true | No
    4 at least one rotation; 5 a flush is recorded in the MANIFEST; 6 a WAL has been removed;
    7 a zero-size log file exists; 8 power loss dropped an unsynced tail or a non-durable name;
    9 some value lives in the value log; 10 fewer commits recovered than completed (power loss);
-   11 everything completed was recovered; 12 directory fsync in the trace *)
+   11 everything completed was recovered; 12 directory fsync in the trace; 13 the power-loss
+   result is not a prefix holding the acknowledged commits (the model reproduces F9);
+   14 a compaction change set (creates + deletes) is in the trace; 15 a table file was removed *)
 Definition state_tags (c : cfg) (st : pstate) (tr : list pevent) : list N :=
   (if is_nil (todo st) then [] else [3])
   ++ (if 1 <? walcur st then [4] else [])
@@ -28,7 +30,11 @@ Definition state_tags (c : cfg) (st : pstate) (tr : list pevent) : list N :=
   ++ (if forallb (fun f => memf (Wal f) (dir (pfs st))) (map fst (units st)) then [] else [6])
   ++ (if forallb (fun f => negb (is_log f) || sized (pfs st) f) (dir (pfs st)) then [] else [7])
   ++ (if existsb (fun u => existsb (fun cl => match snd cl with Some _ => true | None => false end) (snd u)) (units st) then [9] else [])
-  ++ (if existsb (fun e => match e with PE SyncDir => true | _ => false end) tr then [12] else []).
+  ++ (if existsb (fun e => match e with PE SyncDir => true | _ => false end) tr then [12] else [])
+  ++ (if existsb (fun e => match e with
+                          | PE (Append Manifest (IM cs)) => negb (is_nil (deletes cs))
+                          | _ => false end) tr then [14] else [])
+  ++ (if existsb (fun e => match e with PE (Unlink (Sst _)) => true | _ => false end) tr then [15] else []).
 
 Definition run_case (k : case) : bool * list N :=
   match k with
